@@ -125,9 +125,37 @@ theorem descr_of_legal {names : List (Str × List (Str × Str))} {legal : List (
     obtain ⟨d, hd⟩ := lookup_of_mem_keys ht
     exact ⟨row, d, rfl, hd⟩
 
+/-- every legal token of every metric has a description in the metric's row of value names.
+    (Look-ups only: `METRICS_VALUE_NAMES` and `METRICS_VALUES` are separate Python dicts, and neither the
+    order of their entries nor the order of the tokens inside a row has to agree.) -/
+def namesCover (names : List (Str × List (Str × Str))) (legal : List (Str × List Str)) : Bool :=
+  legal.all fun p => match lookup p.1 names with
+    | some row => p.2.all fun t => (lookup t row).isSome
+    | none => false
+
+theorem descr_of_cover {names : List (Str × List (Str × Str))} {legal : List (Str × List Str)}
+    (hc : namesCover names legal = true) {k t : Str}
+    (ht : t ∈ (lookup k legal).getD []) :
+    ∃ row d, lookup k names = some row ∧ lookup t row = some d := by
+  cases hl : lookup k legal with
+  | none => simp [hl] at ht
+  | some ts =>
+    rw [hl] at ht
+    simp only [Option.getD_some] at ht
+    have h := List.all_eq_true.1 hc (k, ts) (Cvss.Lemmas.V2.lookup_mem hl)
+    simp only at h
+    cases hrow : lookup k names with
+    | none => rw [hrow] at h; cases h
+    | some row =>
+      rw [hrow] at h
+      have h' := List.all_eq_true.1 h t ht
+      cases hd : lookup t row with
+      | none => rw [hd] at h'; cases h'
+      | some d => exact ⟨row, d, rfl, hd⟩
+
 /-! #### v2 -/
 
-theorem names_legal2 : Gen.V2.valueNames.map (fun (k, row) => (k, keys row)) = V2.tables.legal := by
+theorem names_legal2 : namesCover Gen.V2.valueNames V2.tables.legal = true := by
   decide +kernel
 
 /-- every optional v2 metric has the value ND -/
@@ -161,7 +189,7 @@ theorem legalAssignment2 {m : MMap} (hv : C03.ValidMap m) : C03.LegalAssignment 
 theorem v2_field_ok {m : MMap} (hv : C03.ValidMap m) {k : Str} (hk : k ∈ keys Gen.V2.abbrs) :
     ∃ key d, lookup k Gen.V2.jsonKeys = some key ∧ V2.getDescription m k = some d ∧
       propOk Schema.schema20 key (.str (us2 d)) = true := by
-  obtain ⟨row, d, hrow, hd⟩ := descr_of_legal names_legal2 (legal_tok2 hv hk)
+  obtain ⟨row, d, hrow, hd⟩ := descr_of_cover names_legal2 (legal_tok2 hv hk)
   obtain ⟨key, h1, h2⟩ := metric_ok v2_metric_fields_ok hrow hd
   refine ⟨key, d, h1, ?_, h2⟩
   unfold V2.getDescription
@@ -212,7 +240,7 @@ theorem isScore_getD {t : Option Rat} (h : ∀ x, t = some x → C03.IsScore x) 
 
 /-! #### v3 -/
 
-theorem names_legal3 : Gen.V3.valueNames.map (fun (k, row) => (k, keys row)) = V3.tables.legal := by
+theorem names_legal3 : namesCover Gen.V3.valueNames V3.tables.legal = true := by
   decide +kernel
 
 theorem kinds3 : ∀ k ∈ keys Gen.V3.abbrs,
@@ -271,7 +299,7 @@ theorem v3_valid_aux (sch : Schema.Schema) (o : V3.Obj) (sort minimal : Bool)
       · exact Or.inl hk
       · exact Or.inr (Or.inl hk)
       · exact Or.inr (Or.inr hk)
-    obtain ⟨row, d, hrow, hd⟩ := descr_of_legal names_legal3 (hdescr k hmem)
+    obtain ⟨row, d, hrow, hd⟩ := descr_of_cover names_legal3 (hdescr k hmem)
     obtain ⟨key, h1, h2⟩ := metric_ok hmf hrow hd
     refine ⟨key, d, h1, ?_, h2⟩
     unfold V3.getDescription
